@@ -1,95 +1,122 @@
 """C18 — a pooled Merkle-map cache never serves data from a superseded generation.
 
-Engine A (Kani/CBMC) over the real `mithril-resource-pool` crate.  One harness per enumerated
-operation sequence (checks/c18_gen.py); the solver quantifies over the generation numbers, the tag of
-raw give-backs and the return path (explicit give-back vs drop) of every held item.
+Engine A (Kani/CBMC) over the real `mithril-resource-pool` crate: from an arbitrary valid pool state the
+solver chooses a history of STEPS operations (acquire / give back explicitly or by drop / raw give-back
+with an arbitrary tag / refresh with an arbitrary refill / reset) by up to two users; the invariant is
+asserted after every operation and the pool is drained at the end.
 """
 import os
 import re
+import shutil
+import subprocess
 
-from lib import core, kani, playback
-from . import c18_gen
+from lib import core, kani
 
+SOURCES = ["internal/mithril-resource-pool/src/resource_pool.rs"]
 FUNCTIONS = [
     "mithril_resource_pool::ResourcePool::{new, acquire_resource, give_back_resource, give_back_resource_pool_item, "
     "reset_available_resources, clear, discriminant, set_discriminant, count, size}",
     "mithril_resource_pool::ResourcePoolItem::{new, discriminant, take, deref, drop}",
 ]
-SOURCES = ["internal/mithril-resource-pool/src/resource_pool.rs"]
+
+QUICK = ["c18_sym_h3_s2_i1_u1", "c18_sym_h3_s1_i1_u1", "c18_sym_h3_s2_i0_u1", "c18_sym_h2_s2_i2_u2"]
+THOROUGH = QUICK + ["c18_sym_h4_s2_i1_u1", "c18_sym_h4_s1_i1_u1", "c18_sym_h4_s2_i0_u1", "c18_sym_h3_s2_i2_u2", "c18_sym_h4_s2_i2_u2",
+                    "c18_sym_h3_s3_i2_u2", "c18_sym_h3_s3_i3_u2", "c18_sym_h5_s2_i1_u1"]
+
+
+def shape(name):
+    m = re.search(r"h(\d)_s(\d)_i(\d)_u(\d)", name)
+    return {"steps": int(m.group(1)), "size": int(m.group(2)), "idle": int(m.group(3)), "users": int(m.group(4))}
 
 
 def classify(check_desc):
     if "superseded generation" in check_desc:
         return "stale-resource-readmitted"
-    if "more than its size" in check_desc:
+    if "more than its size" in check_desc or "deque outgrew" in check_desc:
         return "pool-exceeds-size"
-    if "tagged with current generation" in check_desc or "item carries current generation" in check_desc:
+    if "tagged with current generation" in check_desc or "carries current generation" in check_desc:
         return "item-tag-not-current"
-    if "deque outgrew" in check_desc:
-        return "pool-exceeds-size"
-    return "other:" + check_desc[:60]
+    return "other"
+
+
+def native_search(sh):
+    """Confirm on the real crate, natively: exhaustive run of every operation sequence of the harness's shape
+    over a grid of generations/tags/paths (replay/pool).  Returns (list of VIOLATED lines, raw output)."""
+    cdir = os.path.join(core.VERIF, "replay", "pool")
+    shutil.copyfile(os.path.join(core.REPO, "Cargo.lock"), os.path.join(cdir, "Cargo.lock"))
+    env = dict(os.environ)
+    env["CARGO_NET_OFFLINE"] = "true"
+    out = {}
+    for prof in ("dev", "release"):
+        cmd = ["cargo", "run", "--offline", "-q", "--target-dir", os.path.join(core.CACHE, "replay-target")]
+        if prof == "release":
+            cmd.append("--release")
+        cmd += ["--", "all", str(sh["idle"]), str(sh["size"]), str(min(sh["steps"], 4)), str(sh["users"])]
+        p = subprocess.run(cmd, cwd=cdir, env=env, stdout=subprocess.PIPE, stderr=subprocess.PIPE, text=True, timeout=1500)
+        out[prof] = p.stdout.strip().split("\n") if p.returncode == 0 else ["could not run: " + p.stderr[-300:]]
+    return out
 
 
 def run(tier, seed):
     rep = core.Report("C18", tier, seed)
     rep.functions = FUNCTIONS + ["source hashes: %s" % core.source_hashes(SOURCES)]
+    rep.trusted_base = ["Kani 0.68 compiler (MIR -> goto)", "CBMC 6.11 + CaDiCaL", "the stubs listed under stubs_and_oracles"]
     rep.stubs = [
-        "std::sync::Condvar::notify_one -> no-op (wake-up is outside the claim; reaches futex syscall)",
+        "std::sync::Condvar::notify_one -> no-op (wake-up is outside the claim; reaches the futex syscall)",
         "std::sync::Condvar::wait_timeout -> path cut (blocking on an empty pool / time-out = liveness clause, outside)",
         "alloc::fmt::format -> String::new() (error message text)",
         "std::backtrace::Backtrace::capture -> Backtrace::disabled()",
-        "std::collections::VecDeque::grow -> assert(false) + cut: the harness gives the deque capacity SIZE+2, "
-        "so reallocation is only reachable if the pool exceeds its size by 2 (reported, not hidden)",
+        "<anyhow::Error as Drop>::drop -> no-op (errors are leaked: their vtable-dispatched drop glue over captured backtraces is what timed CBMC out)",
+        "std::collections::VecDeque::grow -> assert(false) + cut: the harness gives the deque capacity SIZE+2, so reallocation is only reachable "
+        "if the pool exceeds its size by 2 (reported as a failure, not hidden)",
     ]
     rep.assumptions = [
         "pre-state satisfies the representation invariant: IDLE <= SIZE idle resources, all of the current generation",
-        "resources are returned under the tag of the generation they were built for (honest callers); raw give-backs use an arbitrary tag/generation pair (g, g)",
-        "refresh = set_discriminant(d+1); clear(); refill j resources of generation d+1 (prover.rs compute_cache), d < u64::MAX",
-        "operation granularity: every pool method is atomic w.r.t. other users (each takes and releases the pool's mutexes inside one call); finer interleavings and real threads are outside",
+        "resources come back under the tag of the generation they were built for (honest callers); raw give-backs use an arbitrary pair (g, g)",
+        "refresh = set_discriminant(d+1); clear(); refill j<=SIZE resources of generation d+1 (prover.rs compute_cache), d < u64::MAX",
+        "operation granularity: every pool method is atomic w.r.t. other users (each takes and releases the pool's mutexes inside one call)",
         "Kani models atomics and Mutex sequentially",
     ]
     rep.outside = [
         "blocking acquire on an empty pool, wake-up and time-out (liveness sentence of the property)",
-        "preemption inside give_back_resource between count() and the push (check-then-act), weak memory",
-        "histories longer than the enumerated length, pools larger than 3, more than 2 concurrent holders",
+        "preemption inside give_back_resource between count() and the push (check-then-act), weak memory, real threads",
+        "histories longer than STEPS, pools larger than 3, more than 2 concurrent holders",
         "MKMap::reset/compress (the real resource type) — the harness resource is a generation tag",
     ]
-    plan = c18_gen.plan(tier)
-    # seed permutes scheduling order only
+    names = QUICK if tier == "quick" else THOROUGH
     import random
-    rnd = random.Random(seed)
-    order = list(plan)
-    rnd.shuffle(order)
-    with open(os.path.join(kani.crate_dir("pool"), "src", "generated.rs"), "w") as f:
-        f.write(c18_gen.render(plan))
-    names = ["generated::" + h[0] for h in order] + ["harness::c18_vacuity_twin"]
-    rep.enumerated = ["operation sequences (%d): length<=%d over {A<u>,B<u>,R,F<j>,X}" % (len(plan), max(len(h[3]) for h in plan)),
-                      "pool size and initial idle count per sequence: %s" % sorted({(h[1], h[2]) for h in plan})]
-    rep.solver_vars = ["initial generation g0: u64", "tag/generation g of every raw give-back: u64",
-                       "return path of every held item (explicit give_back_resource_pool_item vs drop): bool"]
-    rep.bounds = {"unwind": 6, "max_ops": max(len(h[3]) for h in plan), "max_pool_size": max(h[2] for h in plan), "users": 2}
-    timeout = 300 if tier == "quick" else 600
-    results, build_ok, logpath, wall, rc = kani.run("pool", names, jobs=14, harness_timeout_s=timeout, logname="kani-c18-%s.log" % tier)
+    order = list(names)
+    random.Random(seed).shuffle(order)
+    full = ["harness::" + n for n in order] + ["harness::c18_vacuity_twin"]
+    rep.enumerated = ["harness shapes (steps, pool size, initial idle count, users): %s" % [shape(n) for n in names]]
+    rep.solver_vars = ["which operation happens at each step and which user performs it", "initial generation g0: u64",
+                       "tag/generation g of every raw give-back: u64", "refill count of every refresh: 0..=SIZE",
+                       "return path of every held item (explicit give_back_resource_pool_item vs drop)"]
+    rep.bounds = {"unwind": 6, "max_steps": max(shape(n)["steps"] for n in names), "max_pool_size": max(shape(n)["size"] for n in names), "users": 2}
+    timeout = 900 if tier == "quick" else 3000
+    results, build_ok, logpath, wall, rc = kani.run("pool", full, jobs=8, harness_timeout_s=timeout, logname="kani-c18-%s.log" % tier,
+                                                    mem_kb=20_000_000)
     if not build_ok:
         rep.inconcl("harness crate did not build / no harness ran (see %s)" % logpath)
         return rep.finish()
-    seqs = {"generated::" + h[0]: h for h in plan}
-    failing = []
-    for n in names:
+    failing = {}
+    for n in full:
         r = results[n]
-        if n == "harness::c18_vacuity_twin":
-            ob = rep.add(core.Obligation(n, "kani", "vacuity twin: final assert(false) must be reported reachable"))
+        short = n.split("::")[-1]
+        if short == "c18_vacuity_twin":
+            ob = rep.add(core.Obligation(n, "kani", "vacuity twin: a final assert(false) after a pool operation must be reported reachable (stubs do not cut every path)"))
             ob.solver_s = r.time_s
             if r.status == "failed" and any("TWIN" in c[0] for c in r.failed_checks):
                 ob.status = "discharged"
             else:
                 ob.status = "inconclusive"
-                ob.detail = "twin did not fail: harness family may be vacuous (%s)" % r.status
+                ob.detail = "twin did not fail (%s): harness family may be vacuous" % r.status
                 rep.inconcl(ob.detail)
             continue
-        h = seqs[n]
-        ob = rep.add(core.Obligation(n, "kani", "sequence %s from idle=%d size=%d: idle resources all of current generation, count<=size, acquired item of current generation" % (
-            " ".join(h[3]), h[1], h[2]), {"vccs": r.n_checks, "unwind": 6}))
+        sh = shape(short)
+        ob = rep.add(core.Obligation(n, "kani", "every history of %(steps)d solver-chosen operations by %(users)d user(s) on a pool of size %(size)d with %(idle)d idle: "
+                                                "idle resources all of the current generation, count <= size, acquired item of the current generation" % sh,
+                                     dict(sh, vccs=r.n_checks, unwind=6)))
         ob.solver_s = r.time_s
         ob.covers = (r.covers_sat, r.covers_total)
         if r.status == "success":
@@ -102,31 +129,40 @@ def run(tier, seed):
         elif r.status == "failed":
             ob.status = "failed"
             ob.failed_checks = [c[0] + " @ " + c[1] for c in r.failed_checks]
-            failing.append((n, h, r, ob))
+            roles = sorted({classify(c[0]) for c in r.failed_checks}) or ["other"]
+            ob.role = "c18-" + roles[0]
+            for role in roles:
+                failing.setdefault(role, []).append((n, sh, ob))
         else:
             ob.status = "inconclusive"
             ob.detail = r.status
             rep.inconcl("%s: %s" % (n, r.status))
-    # replay failures natively: one representative per (role) class, shortest sequence first
-    by_role = {}
-    for n, h, r, ob in failing:
-        roles = sorted({classify(c[0]) for c in r.failed_checks}) or ["other:unknown"]
-        ob.role = roles[0]
-        for role in roles:
-            by_role.setdefault(role, []).append((n, h, r, ob))
+    # native confirmation, one per violation class (smallest shape first)
     k = 0
-    for role, lst in sorted(by_role.items()):
-        lst.sort(key=lambda t: (len(t[1][3]), t[0]))
-        n, h, r, ob = lst[0]
+    for role, lst in sorted(failing.items()):
+        lst.sort(key=lambda t: (t[1]["steps"], t[1]["size"], t[0]))
+        n, sh, ob = lst[0]
         k += 1
-        res = playback.replay_kani("pool", n, logname="kani-c18-playback-%d.log" % k)
-        payload = {"property": "C18", "role": role, "harness": n, "sequence": h[3], "idle": h[1], "size": h[2],
-                   "failed_checks": ob.failed_checks, "other_failing_harnesses": [t[0] for t in lst[1:]][:40],
-                   "native_replay": res}
+        native = native_search(sh)
+        hits = [l for l in native.get("dev", []) if l.startswith("VIOLATED " + role)]
+        payload = {"property": "C18", "role": "c18-" + role, "harness": n, "shape": sh, "failed_checks": ob.failed_checks,
+                   "other_failing_harnesses": [t[0] for t in lst[1:]], "native_replay": native,
+                   "how": "CBMC decided the harness FAILED; Kani's concrete-playback trace generation exhausts memory on this crate (14 GB), so the "
+                          "counterexample is confirmed natively by running every operation sequence of the same shape on the real crate (replay/pool)"}
         path = core.write_replay("C18", k, payload)
-        ob.counterexample = {"concrete_values": res.get("values"), "native": res.get("native_outcome")}
-        what = "%s after [%s] (idle=%d,size=%d); %d failing sequences in this class" % (role, " ".join(h[3]), h[1], h[2], len(lst))
-        rep.violation("c18-" + role, what, path, reproduced=res.get("reproduced", False))
-        if res.get("reproduced"):
+        ob.counterexample = {"native": hits[:2]}
+        what = "%s in harness %s; native: %s" % (role, n.split("::")[-1], hits[0] if hits else "not reproduced")
+        rep.violation("c18-" + role, what, path, reproduced=bool(hits))
+        if hits:
             rep.traces_validated += 1
     return rep.finish()
+
+
+def replay(payload):
+    sh = payload["shape"]
+    native = native_search(sh)
+    for prof, lines in native.items():
+        for l in lines:
+            print(prof + ": " + l)
+    role = payload["role"][len("c18-"):]
+    return 1 if any(l.startswith("VIOLATED " + role) for l in native.get("dev", [])) else 0
